@@ -65,6 +65,6 @@ SimOut == Final => PrintT(ToJson([n |-> N, tasks |-> MaxTasks, pan |-> [t \in Ta
 NeverRespawnedRuns  == \A w \in Workers : ~(inc[w] >= 1 /\ wpc[w] = "run")
 NeverSecondRespawn  == \A w \in Workers : inc[w] < 2
 NeverDropBusyNoStop == ~(cpc = "dropping" /\ recAttached /\ Running # {} /\ q # <<>>)
-NeverStopDropBusy   == ~(cpc = "done" /\ Gone # {} /\ Running # {} /\ rxLock # NOBODY)
+NeverStopBusy       == ~(cpc = "stopped" /\ Gone # {} /\ Running # {} /\ rxLock # NOBODY)
 NeverRespawnAfterDrop == ~(rpc = "respawn" /\ cpc = "done" /\ ~handles[rw])
 =============================================================================
